@@ -116,6 +116,7 @@ type simLlamaWorld struct {
 	fair      bool // drain phase: no more injected faults
 	pingFail  int  // 1/n chance of a spurious health-check failure (0 = never)
 	slowClose bool
+	closeErr  int // 1/n of Close calls report an error (the process had already gone), 0 = never
 	onClose   func(s *simLlama)
 	onClosed  func(s *simLlama) // called when Close is about to return (teardown complete)
 	// onCloseInUse is called when Close starts while a Completion whose request context is
@@ -264,6 +265,11 @@ func (s *simLlama) Close() error {
 	}
 	if s.w.onClosed != nil {
 		s.w.onClosed(s)
+	}
+	if s.w.closeErr > 0 && verifsim.Draw("close-err", s.w.closeErr) == 0 {
+		// what llmServer.Close returns when the runner process had exited by itself
+		verifsim.Fault("runner_close_error")
+		return errors.New("os: process already finished")
 	}
 	return nil
 }
